@@ -69,8 +69,13 @@ inductive MaxREScale where
   | none | speakers | components | order
   deriving DecidableEq, Repr
 
+/-- running maximum of `f 0 … f (k-1)` (0 for the empty range) -/
+def maxTo (n : Nat) (f : Fin n → Nat) : (k : Nat) → k ≤ n → Nat
+  | 0, _ => 0
+  | k + 1, h => Nat.max (maxTo n f k (Nat.le_of_succ_le h)) (f ⟨k, h⟩)
+
 /-- `max(n)` over the channel orders. -/
-def maxOrd {C : Nat} (ord : Vector Nat C) : Nat := ord.toList.foldl Nat.max 0
+def maxOrd {C : Nat} (ord : Vector Nat C) : Nat := maxTo C (fun c => ord[c.1]) C (Nat.le_refl C)
 
 /-- The maxRE block of `HOADecoderDesign.design`; result = the per-channel factor `a_n[n]`:
 ```
@@ -147,10 +152,18 @@ end kernel
 /-- `hoa.to_acn(n, m) = n*n + n + m` -/
 def toAcn (n m : Int) : Int := n * n + n + m
 
+/-- largest `k ≤ bound` with `k*k ≤ a` (structural, so that the kernel can evaluate it) -/
+def isqrtAux (a : Nat) : Nat → Nat
+  | 0 => 0
+  | k + 1 => if (k + 1) * (k + 1) ≤ a then k + 1 else isqrtAux a k
+
+/-- integer square root = `np.sqrt(acn).astype(int)` for the channel numbers in use -/
+def isqrt (a : Nat) : Nat := isqrtAux a a
+
 /-- `hoa.from_acn(acn)`: `n = np.sqrt(acn).astype(int)` (integer square root for the small values used),
 `m = acn - n*n - n`. -/
 def fromAcn (acn : Nat) : Nat × Int :=
-  let n := Nat.sqrt acn
+  let n := isqrt acn
   (n, (acn : Int) - n * n - n)
 
 def fact : Nat → Nat
